@@ -382,6 +382,7 @@ Definition oracle_meaning (c : case) : Prop :=
   | CBuild l (Some b) dec => strictly_sorted [] (map fst l) = true /\ b = render l /\ dec = IOk (map fst l)
   | CSave l o1 o2 => o1 = o2 /\ forall b w, o1 = SOk b w ->
       strictly_sorted [] (map fst (kept_go None l)) = true /\ b = render (kept_go None l)
+  | CIter ms obs => forall ns, iter_nodes ms = IOk ns -> obs = IOk ns
   | CNoCrash crashed => crashed = false
   | _ => True
   end.
@@ -403,6 +404,9 @@ Proof.
     + split; [intros [H _]; split; [exact H|discriminate] | tauto].
     + split; [intros [H _]; split; [exact H|discriminate] | tauto].
     + split; [intros [H _]; split; [exact H|discriminate] | tauto].
+  - destruct (iter_nodes ms) as [ns0|].
+    + rewrite ires_eqb_spec. split; [intros -> ns Hn; inversion Hn; reflexivity | intros H; apply H; reflexivity].
+    + split; [intros _ ns Hn; discriminate | reflexivity].
 Qed.
 
 (* the model's own outputs always satisfy the oracle *)
@@ -426,6 +430,9 @@ Lemma model_ok_node pr tbl name target a b c :
   check_C41 (CNode tbl name target a b c (roundtrip_node pr name target) true) = true.
 Proof. intros. cbn [check_C41]. rewrite node_roundtrip_partial by assumption.
   rewrite (proj2 (dres_eqb_spec _ _) eq_refl). reflexivity. Qed.
+
+Lemma model_ok_iter ms : check_C41 (CIter ms (iter_nodes ms)) = true.
+Proof. cbn [check_C41]. destruct (iter_nodes ms); [apply ires_eqb_spec|]; reflexivity. Qed.
 
 (* ---------- non-vacuity ---------- *)
 From Coq Require Import String. Open Scope string_scope. Open Scope list_scope.
